@@ -313,6 +313,17 @@ Definition read_current (E : env) (st : store) (a : api) (o : opts) : result :=
                            else []
                 end |}.
 
+(* ---------------------------------------------------------------- a store that changes while the call runs
+   ts n is the store as the call's n-th storage operation sees it.  The data stage makes exactly one storage
+   operation per data file (read_data: one st_get, then hash and parse of the bytes it returned), so the file
+   at position i of the stage is read at time t + i.  There is no second look at a file: nothing can change
+   between "checked" and "used". *)
+Fixpoint data_stage_t (E : env) (ts : nat -> store) (t : nat) (v : bool) (dfs : list dfile) : M (list (list row)) :=
+  match dfs with
+  | [] => ret []
+  | df :: tl => y <- read_data E (ts t) v df ;; ys <- data_stage_t E ts (S t) v tl ;; ret (y :: ys)
+  end.
+
 (* ---------------------------------------------------------------- sessions on one handle
    A Table handle carries no read state (the read path of the code caches nothing between calls): a session
    is a sequence of reads, each evaluated against the store as it is at that moment.  The session
